@@ -137,7 +137,11 @@ def _interact_harness(c, mode, k=2):
     it = Interp(c, policies={S + ":check_element": _ce_summary})
     absent_v = it.models.absent(it)
     # key: None, attribute key or index key (real Key objects; affix_to is executed from its real body)
-    kc = c.choose(3, "key")
+    kc = c.choose(3, "key") if mode == "sym" else 0
+    if mode != "sym":
+        for i in range(k):  # the stand-in fixes trigger presence and ties tags to intercept presence (stated in its bound)
+            c.assume(h_hast(z3.IntVal(i)))
+            c.assume(h_tags(z3.IntVal(i)) == h_hasi(z3.IntVal(i)))
     if kc == 0:
         key = None
     elif kc == 1:
@@ -199,11 +203,19 @@ def _interact_harness(c, mode, k=2):
             c.prove("raises/PteraNameError-info-is-recorded-entry", st2 == "ok" and inf is info["x"])
         else:
             if key is not None and nm == "KeyError":
-                c.prove("raises/declared-attribute-or-item-target:name-error-not-KeyError", False)
+                # C16: a declared-only attribute/item target must fail with the ptera name error; other properties
+                # treat the declaration as outside their scope
+                c.prove("raises/declared-attribute-or-item-target:name-error-not-KeyError", False, only=["C16"])
             else:
                 c.prove("raises/only-OverrideException-or-PteraNameError", False, note=f"raised {nm}")
     c.prove("frame/other-variables-untouched", accs["zzz_other"] == [other] and len(accs) == 2)
     c.prove("frame/interactor-fields", itor.fields["fn"] is fn and itor.fields["accumulators"] is accs and itor.fields["to_close"] == [])
+
+
+def _replay_file(name):
+    import os
+    p = os.path.join(os.path.dirname(os.path.dirname(os.path.abspath(__file__))), "replay", name)
+    return lambda o: open(p).read()
 
 
 INTERACT_TARGETS = [I + ":Interactor.interact", I + ":Interactor.work_on", I + ":WorkingFrame.__init__", I + ":WorkingFrame.__enter__",
@@ -211,7 +223,7 @@ INTERACT_TARGETS = [I + ":Interactor.interact", I + ":Interactor.work_on", I + "
                     TR + ":Key.affix_to", TR + ":PteraNameError.__init__", TR + ":PteraNameError.info"]
 
 
-@unit("interact", ["C02", "C04", "C16", "C01"], INTERACT_TARGETS,
+@unit("interact", ["C02", "C04", "C16", "C01"], INTERACT_TARGETS, replay=_replay_file("c04_interact.py"),
       assumed=["check_element is used through its contract (boolean function of element, name, category; proved under C11)",
                "accumulator_for of an opaque accumulator is effect-free for interact (forking is specified under C07)"])
 def u_interact(c):
@@ -222,8 +234,8 @@ def u_interact(c):
     _interact_harness(c, "sym")
 
 
-@unit("interact-bounded", ["C02", "C04", "C16", "C01"], INTERACT_TARGETS, mode="bounded", bound="<=2 handler entries for the variable",
-      fallback_for="interact")
+@unit("interact-bounded", ["C02", "C04", "C16", "C01"], INTERACT_TARGETS, mode="bounded", bound="2 handler entries for the variable, key None, triggers present, tags iff intercept present",
+      fallback_for="interact", replay=_replay_file("c04_interact.py"))
 def u_interact_b(c):
     """Bounded stand-in for 'interact' (2 concrete entries with symbolic fields)."""
     _interact_harness(c, "bounded", 2)
